@@ -15,11 +15,13 @@ from ..engine import describe_exc
 ID = "C01"
 RUNS = {"quick": 64000, "thorough": 320000, "thorough_s": 300}
 CHUNK = 1000
+RUN_TIMEOUT = 600.0
 RULE = ("seeded scenarios: N in 1..12 (thorough ..40) vertices incl. zero-degree ones, 1-4 topologies / 1-3 "
         "custom motifs (library clique/cycle/diamond callbacks, custom shapes, multi-orbit motifs with balanced "
         "orbit columns), rows as tuples or lists, all three algorithm types built directly or via the factory, "
         "per-topology shuffle schedule (uniform/identity/reverse/rotation/adjacent swaps/near-identity), "
-        "fault plans (callback failure at k-th invocation, abort at k-th RNG decision) followed by reuse of "
+        "thorough tier only: three generations at scale per 16000 runs (one custom motif with an orbit of 49..187 vertices and 2e4-3e4 instances: a "
+        "column of 1-6 million stubs), fault plans (callback failure at k-th invocation, abort at k-th RNG decision) followed by reuse of "
         "the generator object; non-trivial = at least one build-callback invocation happened; distinct = "
         "distinct execution digests (scenario operations + every RNG decision + outcome)")
 ASSUMPTIONS = ["joint degree sequences are made handshake-consistent by construction (column sums are multiples "
@@ -178,6 +180,8 @@ def execute(sc, ctx):
 
     gensim.run_generation(sc, ctx, on_result)
     ctx.calls = state["calls"]
+    if sc.get("scale"):
+        ctx.probe("scale_run_stubs", sum(r[0] for r in sc["jds"]))
     if sc["algo"] == "motifs" and any(len(m["orbits"]) > 1 for m in sc["motifs"]):
         ctx.probe("multi_orbit_motif")
     ctx.probe(f"algo_{sc['algo']}_{sc['via']}")
